@@ -391,6 +391,19 @@ def unknown_series(*ts: Optional[Term]) -> bool:
     return False
 
 
+def memo_on_self(known: Iterable[str], *ts: Optional[Term]) -> Optional[str]:
+    """a comparison reads `self.<attr>[...]` with <attr> not among the attributes the rule knows: a table kept on the
+    object (a memo of a price, of a band). Whether its entries still equal what they were copied from is an invariant
+    over every writer and every later change of the source -- not decided, so the caller refuses (seeds C15t, C16t)"""
+    for t in ts:
+        if t is None:
+            continue
+        for x in subterms(strip_ver(t)):
+            if x[0] == "sub" and strip_ver(x[1])[0] == "attr" and strip_ver(strip_ver(x[1])[1]) == ("sym", "self") and strip_ver(x[1])[2] not in known:
+                return strip_ver(x[1])[2]
+    return None
+
+
 def nonempty_decision(p: Path, seq: Term) -> Optional[bool]:
     """polarity of the path's decision `seq is non-empty` (len(seq) > 0, len(seq) == 0, truthiness)"""
     seq = strip_ver(seq)
